@@ -393,7 +393,8 @@ def check_bw(rep, crate, mode, cfgname):
         # steps (Lemma 19)
         got = T.canon(steps)
         wantsp = T.canon(spec['SPACE'])
-        if got == wantsp:
+        from . import linarith
+        if got == wantsp or linarith.terms_equal(got, wantsp):
             rep.ok('SPACE', f'SPACE:bw:{cfgname}:steps', where,
                    'steps of the end-of-chain callback shifted by -1 and of every polled callback unshifted, merged and deduplicated'
                    + (' (debug cross-check wrapper stripped)' if stripped else ''), fn=fn)
